@@ -279,9 +279,12 @@ def shard(ctx):
         if k > 1 or t % 5 == 0:
             fl = {"d.json": docs}
             argv = ["validate", "--structured", "-S", "none", "-o", "json", "-d", "{S}/d.json"]
+            same_base = t % 2 == 1       # every other batch: one base name in different directories (still different files)
+            names_ = [("dir%d/baseline.guard" % i) if same_base else ("r%d.guard" % i) for i in range(len(files))]
             for i, text in enumerate(files):
-                fl["r%d.guard" % i] = text
-                argv += ["-r", "{S}/r%d.guard" % i]
+                fl[names_[i]] = text
+                argv += ["-r", "{S}/" + names_[i]]
+            ctx.res.counts["batches_same_base_name" if same_base else "batches_distinct_names"] += 1
             rc = ctx.w.run({"k": "cli", "argv": argv, "files": fl})
             ctx.res.cases += 1
             case = {"kind": "batch", "rules": files, "data": docs}
@@ -297,8 +300,8 @@ def shard(ctx):
             # the single reports through the same front end (same loader, same file names)
             cli_singles = []
             for i, text in enumerate(files):
-                r1 = ctx.w.run({"k": "cli", "argv": ["validate", "--structured", "-S", "none", "-o", "json", "-d", "{S}/d.json", "-r", "{S}/r%d.guard" % i],
-                                "files": {"d.json": docs, "r%d.guard" % i: text}})
+                r1 = ctx.w.run({"k": "cli", "argv": ["validate", "--structured", "-S", "none", "-o", "json", "-d", "{S}/d.json", "-r", "{S}/" + names_[i]],
+                                "files": {"d.json": docs, names_[i]: text}})
                 try:
                     cli_singles.append(json.loads(r1["out"])[0])
                 except (ValueError, IndexError, KeyError):
